@@ -47,6 +47,10 @@ CONVERTED_IN_2_0 = ("create.", "register.", "derive_key.", "create_key_pair.", "
                     "get_attributes.", "get_attribute_list.", "delete_attribute.", "modify_attribute.", "query.",
                     "objects.TemplateAttribute", "objects.CommonTemplateAttribute", "objects.PrivateKeyTemplateAttribute",
                     "objects.PublicKeyTemplateAttribute", "objects.Attribute")
+# The Query response's optional sections are gated by version in ways the hand table GATED does not list (profile,
+# validation and capability information 1.3, defaults and protection storage masks 2.0 ...): value equality is not
+# demanded for it (encode / walk / decode / re-encode is).
+EQ_NOT_DEMANDED = ("query.QueryResponsePayload",)
 ORDER = [V.KMIP_1_0, V.KMIP_1_1, V.KMIP_1_2, V.KMIP_1_3, V.KMIP_1_4, V.KMIP_2_0]
 
 
@@ -144,7 +148,8 @@ def struct_rt(name, versions=None, pairs=True, walker=True):
                 gated_present = True
                 if g[1].value in R.tags_in(R.walk(buf)):
                     return False
-        if has_eq and not gated_present and not (v == V.KMIP_2_0 and name.startswith(CONVERTED_IN_2_0)):
+        if has_eq and not gated_present and name not in EQ_NOT_DEMANDED \
+                and not (v == V.KMIP_2_0 and name.startswith(CONVERTED_IN_2_0)):
             if not (y == x):
                 return False
         return True
